@@ -111,7 +111,7 @@ def C19():
 
 RLE32_TOTAL = [("1x1_n3_a", True), ("2x1_n4_b", True), ("1x2_n4_a", True), ("2x2_n6_b", False)]
 DECOMP = [("raw32_2x2_n16", True), ("raw32_2x2_n15", True), ("raw32_2x2_n17", True), ("raw32_1x1_n0", True), ("raw32_0x2_n0", False),
-          ("raw16_2x2_n8", True), ("raw16_2x2_n7", True), ("raw16_2x2_n0", False), ("raw16_1x3_n9", False), ("raw16_0x0_n2", True),
+          ("raw16_2x2_n8", True), ("raw16_2x2_n7", True), ("raw16_2x2_n0", False), ("raw16_1x3_n9", False), ("raw16_0x0_n2", True), ("raw16_1x1_n2", True), ("raw16_3x1_n6", True),
           ("rle32_disp_0x1_n3", True)]
 
 
